@@ -337,6 +337,7 @@ pub const NVECS: usize = 3;
 
 pub fn prepare_monitors(ctx: &Ctx) {
     reg::reset();
+    reg::set_safe_payloads(!ctx.tool_mode);
     guardmem::set_tool_mode(ctx.tool_mode);
     if ctx.tool_mode {
         monalloc::set_mode(monalloc::MODE_LOG);
